@@ -15,7 +15,10 @@ EXPLANATION = (
     "camel-case sibling escapes `Self`; (R3.2) the panic inventory of the generator: every Assert, unwrap/expect, Index and panic "
     "call in conjure_codegen outside the IR types is in the reasoned inventory (spec/codegen_panics.json); a new site or a higher "
     "count is reported; (R3.3) the analysis build itself type-checks both generated configurations of the repository's instance "
-    "(all 44 IR types, 2 services, 1 error x 2 configs are present in the compiled facts).")
+    "(all 44 IR types, 2 services, 1 error x 2 configs are present in the compiled facts); (R3.4) every prelude-name helper (Box, Option, "
+    "Vec, String, Into, ...) is keyed on the type whose module the code is emitted into — the same value the relative type paths "
+    "are computed from; (R3.5) the type renderer's ordered-key flag (f64 -> DoubleKey inside set items / map keys) is passed on at "
+    "every nested-type descent (known finding: the map-value descent resets it).")
 
 EXCLUDED = {"$crate": "not a Conjure-reachable spelling", "{{root}}": "not a spelling", "_": "not a name the snake-case conversion can produce alone... (it can: see below)",
             "Self": "handled by the camel-case escaper"}
@@ -113,6 +116,82 @@ def run(ctx):
     for b in hs:
         muls = [s for _, _, s in b.stmts() if "bin" in s["r"] and s["r"]["bin"].startswith("Mul") and not (const_expr(b, s["r"]["a"]) and const_expr(b, s["r"]["b"]))]
         ctx.check(not muls, "R3.2", b.loc(), f"{b.path}|unchecked-mul", f"{b.path}: multiplies an input-dependent size without overflow check (generation would panic / wrap on a huge size tag)", instance=f"{b.name}: input-dependent product is checked")
+    # ---------------- R3.4 prelude names are disambiguated for the module the code is emitted into
+    pre = [b for b in c.bodies if b.name == "prelude_ident" and b.id.startswith("conjure_codegen::context::")]
+    if len(pre) != 1:
+        ctx.violation("R3.4", "conjure_codegen", "anchor|prelude_ident", f"expected one prelude-name disambiguation function, found {len(pre)}")
+    else:
+        helpers = {b.id: b.name for b in c.bodies for _, t in b.calls() if t["call"].get("id") == pre[0].id}
+        ctx.floor("R3.4", "prelude-name helpers (Box, Option, Vec, ...)", len(helpers), 12)
+        nfun = 0
+        for b in c.bodies:
+            if not b.id.startswith("conjure_codegen::context::"):
+                continue
+            hs = [t for _, t in b.calls() if t["call"].get("id") in helpers]
+            tps = [t for _, t in b.calls() if t["call"]["name"] == "type_path" and t["call"].get("local")]
+            if not hs or b.id in helpers:
+                continue
+            nfun += 1
+            tr = Tracer(b, through_calls=True)
+            emit = {frozenset(tr.root_locals(t["args"][1])) for t in tps}
+            for t in hs:
+                r = frozenset(tr.root_locals(t["args"][1]))
+                ok = len(r) == 1 and (not emit or emit == {r})
+                others = {frozenset(tr.root_locals(x["args"][1])) for x in hs}
+                ok = ok and len(others) == 1
+                ctx.check(ok, "R3.4", b.loc(t["ln"]), f"{b.name}|{t['call']['name']}|emitting-type",
+                          f"{b.name}: `{t['call']['name']}` decides between the short and the fully qualified name by the type given to it ({[b.local_name(k) for k in sorted(r)]}), but the code is emitted into the module of "
+                          f"{[b.local_name(k) for e in emit for k in sorted(e)] or 'the other helpers argument'} (the type the paths are made relative to): a definition named like the prelude item gets a self-referential, non-compiling type",
+                          instance=f"{b.name}: {t['call']['name']}({'/'.join(b.local_name(k) or '?' for k in sorted(r))}) keyed on the emitting type")
+        ctx.floor("R3.4", "context functions using prelude-name helpers", nfun, 7)
+    # ---------------- R3.5 ordered-key context is propagated through every nested type
+    kf = [b for b in c.bodies if b.id.startswith("conjure_codegen::context::") and b.kind == "assoc_fn" and any(t["call"].get("id") == b.id for _, t in b.calls())
+          and any(tystr(b.local_ty(k)) == "bool" for k in range(1, b.argc + 1)) and any(dt.resolve_const(b, a) is not None and "DoubleKey" in str(dt.resolve_const(b, a)) for _, t in b.calls() for a in t["args"])]
+    if len(kf) != 1:
+        kf = [b for b in c.bodies if b.id.startswith("conjure_codegen::context::") and b.name == "rust_type_inner"]
+    if len(kf) != 1:
+        ctx.violation("R3.5", "conjure_codegen", "anchor|key-context", f"expected one type-rendering function with an ordered-key flag, found {len(kf)}")
+    else:
+        b = kf[0]
+        kp = [k for k in range(1, b.argc + 1) if tystr(b.local_ty(k)) == "bool"][0]
+        wrappers = {}
+        for x in c.bodies:
+            if x.id == b.id:
+                continue
+            for _, t in x.calls():
+                if t["call"].get("id") == b.id and len(x.blocks) <= 4:
+                    cst = dt.resolve_const(x, t["args"][kp - 1])
+                    if cst is not None and "bool" in cst:
+                        wrappers[x.id] = (x.name, cst["bool"])
+        cfg = CFG(b)
+        tnames = None
+        n = 0
+        for bb, t in b.calls():
+            cid = t["call"].get("id")
+            if cid == b.id:
+                cst = dt.resolve_const(b, t["args"][kp - 1])
+                r = dt.resolve_copy(b, t["args"][kp - 1])
+                passes = (cst is not None and cst.get("bool") is True) or Tracer(b).root_locals(t["args"][kp - 1]) == {kp}
+                how = "true" if cst is not None and cst.get("bool") is True else "the incoming flag"
+            elif cid in wrappers:
+                passes = wrappers[cid][1] is True
+                how = f"{wrappers[cid][0]} (flag = {str(wrappers[cid][1]).lower()})"
+            else:
+                continue
+            n += 1
+            arm = "?"
+            for sbb, allowed, allv in dt.edge_conditions(cfg, bb):
+                atom = dt.switch_atom(b, sbb)
+                if atom[0] == "discr":
+                    a_ = F.adt(ty_adt(dt.place_ty(b, F, atom[1]) or {}) or "")
+                    if a_ and a_["kind"] == "enum" and len(a_["variants"]) > 3:
+                        vs = dt.allowed_variants(allowed, allv, [v["name"] for v in a_["variants"]])
+                        if len(vs) == 1:
+                            arm = next(iter(vs))
+            ctx.check(passes, "R3.5", b.loc(t["ln"]), f"{b.name}|{arm}|key-flag-reset",
+                      f"{b.name}: the nested type of the `{arm}` arm is rendered through {how}: inside a set item or map key an f64 below it is emitted as plain f64, which is not Ord, so the generated BTreeSet/BTreeMap does not compile "
+                      "(e.g. set<map<string, double>>)", instance=f"{b.name}: `{arm}` descends with {how}")
+        ctx.floor("R3.5", "nested-type descents of the type renderer", n, 6)
     # ---------------- R3.3 instance compiled
     ct = F.crate("conjure_test")
     ir = instance.IR()
